@@ -101,7 +101,7 @@ def main():
         for p, r in sorted(res.items()):
             print("%-40s %s %s %5.0fs %s" % (n, p, "CAUGHT" if r["caught"] else "MISSED(exit %d)" % r["exit"],
                                             r["wall_s"], "; ".join(r["signatures"][:2])[:160]), flush=True)
-            if not r["caught"]:
+            if not r["caught"] and not MUTANTS[n].get("expected_miss"):
                 rc = 1
         json.dump(results, open(results_path, "w"), indent=1, sort_keys=True)
     return rc
